@@ -10,6 +10,7 @@ import (
 	"context"
 	"crypto/sha256"
 	"fmt"
+	"os"
 	"reflect"
 	"runtime"
 	"sort"
@@ -47,10 +48,19 @@ const (
 	c13id2 = "msg2"
 )
 
+// The two ceremony sessions are RELATED identifiers (the class of C08's related queries): 33 bytes each, equal in their first 32
+// bytes (the size of the definition hash that charon uses as session id) and different in the last one, so that a session binding
+// that truncates, pads or otherwise narrows the identifier merges them. VERIF_C13_SESSIONS=short restores two unrelated short ids.
 var (
-	c13sess1 = []byte("session-one")
-	c13sess2 = []byte("session-two")
+	c13sess1 = append([]byte("0123456789abcdef0123456789abcdef"), 0x01)
+	c13sess2 = append([]byte("0123456789abcdef0123456789abcdef"), 0x02)
 )
+
+func init() {
+	if os.Getenv("VERIF_C13_SESSIONS") == "short" {
+		c13sess1, c13sess2 = []byte("session-one"), []byte("session-two")
+	}
+}
 
 type c13deliv struct {
 	Recv, Sender int
@@ -382,6 +392,31 @@ func (w *c13world) menu(allPerms bool) []c13event {
 					// relayed set with the faulty member's own entry replaced by a signature for itself
 					l := append([]c13sigKey(nil), b...)
 					l[w.faulty] = c13sigKey{w.faulty, 1, c13id, p, w.faulty}
+					add(l)
+				}
+			}
+			// WHOLE lists that are genuine and complete for something else, presented with this payload under this id: the set
+			// the members gave for another payload of the same id (after that broadcast was completed: a replay of its
+			// signature list with other content), for the same payload under the other id, or in the other session
+			for _, alt := range []func(sg int) c13sigKey{
+				func(sg int) c13sigKey { return c13sigKey{sg, 1, c13id, 3 - p, w.faulty} },
+				func(sg int) c13sigKey { return c13sigKey{sg, 1, c13id2, p, w.faulty} },
+				func(sg int) c13sigKey { return c13sigKey{sg, 2, c13id, p, w.faulty} },
+				func(sg int) c13sigKey { return c13sigKey{sg, 2, c13id, 3 - p, w.faulty} },
+			} {
+				if p >= 10 {
+					break
+				}
+				l := make([]c13sigKey, w.n)
+				complete := true
+				for sg := 0; sg < w.n; sg++ {
+					l[sg] = alt(sg)
+					if _, ok := w.known[l[sg]]; !ok {
+						complete = false
+						break
+					}
+				}
+				if complete {
 					add(l)
 				}
 			}
